@@ -27,6 +27,7 @@ SHAPES = [
     ("loaders", [[0, 0], [0, 0]], False, Q),
     ("rebuild", [[1, 1]], False, Q),
     ("reverse", [[0, 0]] * 3, False, Q, dict(shard=4)),
+    ("again", [[0, 0], [0, 0]], False, Q),
     ("construct", [[1, 1], [1, 1]], False, T, dict(budget=2400, shard=8)),
     ("construct", [[1, 0]] * 3, False, T, dict(budget=2400, shard=9)),
     ("construct", [[0, 1]] * 3, False, T, dict(budget=2400, shard=9)),
@@ -36,7 +37,7 @@ SHAPES = [
 
 def jobs(tier):
     return shape_jobs(SHAPES, tier, {"construct": ["ok", "dupU", "dupP"], "record": ["valid", "invalid"],
-                                     "loaders": ["done"], "rebuild": ["dupP", "dupU"], "reverse": ["done"]})
+                                     "loaders": ["done"], "rebuild": ["dupP", "dupU"], "reverse": ["done"], "again": ["ok", "dupU"]})
 
 
 def clash(groups):
@@ -174,6 +175,20 @@ def build(job):
                        "an entry of the reverse prefix map is not registered with the record of its CURIE prefix")
         return "done"
 
+    def again(eng):
+        """A second, independent construction from a prefix map after a converter loaded from an overlapping prefix map
+        has been extended in place: the decision depends on the second map alone."""
+        api = eng.mods.api
+        k0, v0, k1, v1, ps, w = [eng.var(x) for x in ("k0", "v0", "k1", "v1", "ps", "w")]
+        eng.assume(And(_s(k0) != _s(k1), distinct([k0, ps]), distinct([v0, w])))
+        loader = eng.choice("loader", ["from_prefix_map", "load_prefix_map"])
+        load = api.Converter.from_prefix_map if loader == "from_prefix_map" else api.load_prefix_map
+        first = load(eng.mkdict([(k0, v0)]))
+        first.add_prefix(k0, w, prefix_synonyms=[ps], merge=True)
+        recs = [type("R", (), dict(all_u=[v0], all_p=[k0]))(), type("R", (), dict(all_u=[v1], all_p=[k1]))()]
+        return construct_and_check(eng, lambda: load(eng.mkdict([(k0, v0), (k1, v1)])), [[v0], [v1]], [[k0], [k1]], recs,
+                                   "a second " + loader)
+
     def rebuild(eng):
         """Records that gained synonyms after they were first used (in-place merge) must still be described completely
         to a strict constructor: a second owner of an acquired synonym is a clash."""
@@ -196,4 +211,4 @@ def build(job):
                 eng.expect(type(e).__name__ == ("DuplicatePrefixes" if side == "curie" else "DuplicateURIPrefixes"), "wrong duplicate error class")
         return "dupP" if side == "curie" else "dupU"
 
-    return dict(construct=construct, record=record, loaders=loaders, rebuild=rebuild, reverse=reverse)[fn]
+    return dict(construct=construct, record=record, loaders=loaders, rebuild=rebuild, reverse=reverse, again=again)[fn]
